@@ -2,6 +2,7 @@ package checks
 
 import (
 	"fmt"
+	"go/types"
 	"os"
 	"regexp"
 	"sort"
@@ -75,18 +76,25 @@ func hostileNative(v string) string {
 	if reJSData.MatchString(v) {
 		return "contains a javascript:/data: reference"
 	}
+	if urlBadNative(v) {
+		return "contains a url() that is not a plain http/https reference"
+	}
+	return ""
+}
+
+func urlBadNative(v string) bool {
 	rest := v
 	for {
 		i := strings.Index(rest, "url(")
 		if i < 0 {
-			return ""
+			return false
 		}
 		r := rest[i+4:]
 		if len(r) > 0 && (r[0] == '"' || r[0] == '\'') {
 			r = r[1:]
 		}
 		if !strings.HasPrefix(r, "http:") && !strings.HasPrefix(r, "https:") {
-			return "contains a url() that is not a plain http/https reference"
+			return true
 		}
 		rest = rest[i+4:]
 	}
@@ -160,6 +168,7 @@ func runC18(c *Ctx, ev *Evidence) ([]Violation, error) {
 	}
 	base.Close()
 	ev.Bound("split_parts_max", K)
+	ev.Bound("split_parts_max_positional", fmt.Sprintf("%d for handlers that address split parts by constant index (found from the SSA: a constant-index access to a []string)", K+2))
 	ev.Bound("handlers", len(handlers))
 	ev.Bound("values", "all 7-bit ASCII strings whose comma/space/slash splits have at most K parts per level; longer values are cut and counted")
 	ev.Assume("modular reasoning over the handler call graph: inside a handler, calls of other handlers are opaque predicates carrying the lemma 'accepts t => t has no hostile fragment', which is what this check establishes for that handler",
@@ -195,6 +204,7 @@ func runC18(c *Ctx, ev *Evidence) ([]Violation, error) {
 			ev.Bound("distribution_lemmas", fmt.Sprintf("%d of %d proved (class x separator / join position, arbitrary strings)", n, len(dist)))
 		}
 	}
+	vocab := c18Vocabulary(c, handlers)
 	var mu sync.Mutex
 	var viols []Violation
 	seen := map[string]bool{}
@@ -236,7 +246,11 @@ func runC18(c *Ctx, ev *Evidence) ([]Violation, error) {
 			var states []*sym.State
 			v := smt.Var("v", smt.String)
 			for attempt := 0; attempt < 2; attempt++ {
-				hcfg := sym.Config{NoFeasCheck: true, SplitMax: K, Intercept: intercept, Workers: 4, MaxStates: 60000, UnwindSym: 12}
+				k := K
+				if indexesParts(h.Fn) {
+					k = K + 2 // positional handlers: one part more than any index the code mentions
+				}
+				hcfg := sym.Config{NoFeasCheck: true, SplitMax: k, Intercept: intercept, Workers: 4, MaxStates: 60000, UnwindSym: 12}
 				hcfg.Summaries = map[string]func(in *sym.Interp, st *sym.State, args []sym.Value) sym.Value{}
 				if rcOK {
 					hcfg.Summaries[cssPkg+".recursiveCheck"] = recursiveCheckSummary
@@ -312,6 +326,8 @@ func runC18(c *Ctx, ev *Evidence) ([]Violation, error) {
 					}
 				})
 				var r smt.Result
+				var fulls []*smt.Term
+				var satFull *smt.Term
 				name := fmt.Sprintf("C18-%s-p%d", h.Name, st.ID)
 				{
 					classes := hostileClasses(v)
@@ -324,6 +340,7 @@ func runC18(c *Ctx, ev *Evidence) ([]Violation, error) {
 					}
 					sort.Strings(cn)
 					results := make([]smt.Result, len(cn))
+					fulls = make([]*smt.Term, len(cn))
 					var cwg sync.WaitGroup
 					// equations x = p1·sep·p2… introduced by the split models: used to
 					// expand the hostile predicate (and the lemma instances) over the parts
@@ -378,6 +395,7 @@ func runC18(c *Ctx, ev *Evidence) ([]Violation, error) {
 							results[ci] = smt.Result{Status: smt.Unsat, Solver: "syntactic"}
 							continue
 						}
+						fulls[ci] = full
 						cwg.Add(1)
 						go func(ci int, k string, full *smt.Term) {
 							defer cwg.Done()
@@ -389,9 +407,10 @@ func runC18(c *Ctx, ev *Evidence) ([]Violation, error) {
 					}
 					cwg.Wait()
 					r = smt.Result{Status: smt.Unsat}
-					for _, x := range results {
+					for ci, x := range results {
 						if x.Status == smt.Sat {
 							r = x
+							satFull = fulls[ci]
 							break
 						}
 						if x.Status == smt.Unknown {
@@ -418,6 +437,19 @@ func runC18(c *Ctx, ev *Evidence) ([]Violation, error) {
 					}
 					accepted, _ := nres[0]["accept"].(bool)
 					why := hostileNative(val)
+					if !(accepted && why != "") && satFull != nil {
+						// the model may rest on an opaque sub-handler accepting a string it
+						// really rejects: search again with every accepted sub-handler argument
+						// restricted to natively confirmed values
+						if v2, ok := c18Refine(c, in, vocab, satFull, v, name, timeout); ok {
+							req = NativeReq{"op": "csshandler", "prop": h.Props[0], "value": v2}
+							if nres2, e2 := RunNative(c.Repo, c.VerifDir, []NativeReq{req}, ""); e2 == nil {
+								if a2, _ := nres2[0]["accept"].(bool); a2 && hostileNative(v2) != "" {
+									val, accepted, why = v2, true, hostileNative(v2)
+								}
+							}
+						}
+					}
 					ev.Sample(map[string]interface{}{"query": name, "handler": h.Name, "value": val, "native_accepts": accepted, "hostile": why})
 					mu.Lock()
 					if accepted && why != "" {
@@ -894,6 +926,24 @@ func refuteByDistribution(in *sym.Interp, dist map[string]bool, class string, v 
 	if !okShape {
 		return false
 	}
+	// parts compared with constants (keyword lists): the class of a constant is known
+	smt.Walk(full, func(x *smt.Term) {
+		if x.Op != "=" || len(x.Args) != 2 {
+			return
+		}
+		for i := 0; i < 2; i++ {
+			if isPart[x.Args[i]] && x.Args[1-i].IsConst() && x.Args[1-i].Sort == smt.String {
+				holds, known := classNative(class, x.Args[1-i].S)
+				if known {
+					if holds {
+						fs = append(fs, smt.Implies(x, atom(x.Args[i])))
+					} else {
+						fs = append(fs, smt.Implies(x, smt.Not(atom(x.Args[i]))))
+					}
+				}
+			}
+		}
+	})
 	// propositional skeleton of the path condition: keep it as is (J atoms are UF booleans)
 	q := smt.And(append(append([]*smt.Term{}, acc...), fs...)...)
 	if q.IsFalse() {
@@ -904,4 +954,112 @@ func refuteByDistribution(in *sym.Interp, dist map[string]bool, class string, v 
 		r = w.Check(&smt.Query{Name: "C18-distribution-refutation", Asserts: append([]*smt.Term{q}, sym.SideConditions([]*smt.Term{q})...), Timeout: 8 * time.Second, Both: true, Grace: 300 * time.Millisecond})
 	})
 	return r.Status == smt.Unsat
+}
+
+// c18Words are ordinary CSS component values; c18Vocabulary records which of
+// them each default handler really accepts (one native batch per run). They
+// are used only to turn a symbolic counterexample that relies on an opaque
+// sub-handler into a concrete one.
+var c18Words = []string{"red", "#fff", "#000000", "rgb(0,0,0)", "1px", "0", "10%", "2em", "1", "0.5", "auto", "none", "left", "top", "center", "solid", "thin", "medium",
+	"inherit", "initial", "bold", "italic", "serif", "url(http://a)", "1s", "ease", "all", "normal", "10px 10px", "block", "1px solid red", "a", "x1"}
+
+var c18VocabMu sync.Mutex
+
+func c18Vocabulary(c *Ctx, handlers []*handlerInfo) map[string][]string {
+	var reqs []NativeReq
+	type key struct{ h, w string }
+	var keys []key
+	for _, h := range handlers {
+		for _, w := range c18Words {
+			reqs = append(reqs, NativeReq{"op": "csshandler", "prop": h.Props[0], "value": w})
+			keys = append(keys, key{h.Name, w})
+		}
+	}
+	out := map[string][]string{}
+	res, err := RunNative(c.Repo, c.VerifDir, reqs, "")
+	if err != nil {
+		c.Log("C18 vocabulary: native run failed: %v", err)
+		return out
+	}
+	for i, k := range keys {
+		if a, _ := res[i]["accept"].(bool); a {
+			out[k.h] = append(out[k.h], k.w)
+		}
+	}
+	return out
+}
+
+func c18Refine(c *Ctx, in *sym.Interp, vocab map[string][]string, full, v *smt.Term, name string, timeout time.Duration) (string, bool) {
+	var extra []*smt.Term
+	seen := map[*smt.Term]bool{}
+	smt.Walk(full, func(x *smt.Term) {
+		if x.Op != "uf" || !strings.HasPrefix(x.Name, "J.") || seen[x] {
+			return
+		}
+		seen[x] = true
+		words, ok := vocab[strings.TrimPrefix(x.Name, "J.")]
+		if !ok {
+			return
+		}
+		var alts []*smt.Term
+		for _, w := range words {
+			alts = append(alts, smt.Eq(x.Args[0], smt.StrC(w)))
+		}
+		extra = append(extra, smt.Implies(x, smt.Or(alts...)))
+	})
+	if len(extra) == 0 {
+		return "", false
+	}
+	f := smt.And(append([]*smt.Term{full}, extra...)...)
+	if f.IsFalse() {
+		return "", false
+	}
+	var r smt.Result
+	in.WithWorker(func(w *smt.Worker) {
+		r = w.Check(&smt.Query{Name: name + "-refined", Asserts: append([]*smt.Term{f}, sym.SideConditions([]*smt.Term{f})...), Values: []*smt.Term{v}, Timeout: timeout})
+	})
+	if r.Status != smt.Sat {
+		return "", false
+	}
+	return r.Values[0].S, true
+}
+
+// classNative evaluates a hostile class on a constant.
+func classNative(class, s string) (holds, known bool) {
+	if strings.HasPrefix(class, "contains ") {
+		return strings.Contains(s, strings.TrimPrefix(class, "contains ")), true
+	}
+	switch class {
+	case "javascript:/data: reference":
+		return reJSData.MatchString(s), true
+	case "url() that is not a plain http/https reference":
+		return urlBadNative(s), true
+	}
+	return false, false
+}
+
+// indexesParts reports whether fn reads a []string at a constant index >= 1,
+// i.e. treats the components of a split value positionally. Such handlers are
+// explored with more parts, because a component beyond the last index the
+// code mentions is exactly what an "unchecked trailing component" defect is.
+func indexesParts(fn *ssa.Function) bool {
+	for _, b := range fn.Blocks {
+		for _, ins := range b.Instrs {
+			ia, ok := ins.(*ssa.IndexAddr)
+			if !ok {
+				continue
+			}
+			sl, ok := ia.X.Type().Underlying().(*types.Slice)
+			if !ok {
+				continue
+			}
+			if bt, ok := sl.Elem().Underlying().(*types.Basic); !ok || bt.Kind() != types.String {
+				continue
+			}
+			if cst, ok := ia.Index.(*ssa.Const); ok && cst.Value != nil && cst.Int64() >= 1 {
+				return true
+			}
+		}
+	}
+	return false
 }
